@@ -405,6 +405,49 @@ def replica_answer(ops, q):
   return rp.ask(q)
 
 
+def targeted_search(ops, k, budget_s=25.0):
+  """An operation whose real invalidation flag differs from the model's: look for a stale answer around it by
+  asking EVERY small query (all singletons, all pairs, all Filter) before op k and again after it, on the
+  long-lived program vs a replica.  Returns a failing history or None."""
+  deadline = time.time() + budget_s
+  real = Real()
+  for op in ops[:k]:
+    real.do(op)
+  def all_queries(rl):
+    qs = []
+    nb, nn, nv = len(rl.binds), len(rl.nodes), len(rl.vars)
+    for n in range(nn):
+      for b in range(nb):
+        qs.append(("Vis", n, [b]))
+      for b1 in range(nb):
+        for b2 in range(b1 + 1, nb):
+          qs.append(("Has", n, [b1, b2]))
+      for v in range(nv):
+        qs.append(("Filter", n, v))
+    return qs
+  pre = all_queries(real)
+  for q in pre:                       # warm every cache the solver has
+    real.ask(q)
+  real.do(ops[k])
+  post = all_queries(real)
+  for q in post:
+    if time.time() > deadline:
+      return None
+    a = real.ask(q)
+    b = replica_answer(ops[:k + 1], q)
+    if a != b:
+      # minimise the warm-up: which single earlier query is enough?
+      for q0 in pre:
+        r2 = Real()
+        for op in ops[:k]:
+          r2.do(op)
+        r2.ask(q0); r2.do(ops[k])
+        if r2.ask(q) != b:
+          return [("op", o) for o in ops[:k]] + [("q", q0), ("op", ops[k]), ("q", q)], q, a, b
+      return [("op", o) for o in ops[:k]] + [("q", x) for x in pre] + [("op", ops[k]), ("q", q)], q, a, b
+  return None
+
+
 def run_history(h, check_inval=True):
   """Runs the history on a long-lived program; at every query compares with a replica.
   Returns (mismatches [(index, q, stale, fresh)], inval_flags per op, final snapshot, op prims)."""
@@ -588,6 +631,7 @@ def run(res):
   res.obligation("model-run(cases.v)", not errors, "\n".join(errors)[:3000])
   n_bad = 0
   first = ""
+  flag_mismatches = []
   for name, _ in cases:
     if name not in model:
       continue
@@ -605,11 +649,31 @@ def run(res):
     ok_graph = (mnodes == rn and mbinds == rb and mnv == rnv)
     # model says "invalidates" must be implied by ... : real invalidated <=> model inval_all, where observable
     ok_flags = all(f is None or f == m for f, m in zip(flags, mflags)) and len(flags) == len(mflags)
+    if not ok_flags:
+      # the implementation kept (or dropped) its solver where the model says otherwise: remember where, and
+      # search for a stale answer around those operations afterwards (time-bounded)
+      for k_op, (f, m) in enumerate(zip(flags, mflags)):
+        if f is not None and f != m and not f:
+          flag_mismatches.append((name, k_op))
     if not (wf and ok_graph and ok_flags):
       n_bad += 1
       if not first:
         first = (f"{name}: wf={wf} graph_equal={ok_graph} flags_equal={ok_flags}; real flags={flags} model flags={mflags}; "
                  f"real graph={(rn, rb, rnv)} model graph={(mnodes, mbinds, mnv)}")[:2500]
+  t_search = time.time()
+  hsd = dict(hs)
+  for name, k_op in flag_mismatches:
+    if time.time() - t_search > 60 or len(res.violations) >= 3 or any(v["found_input"] for v in res.violations):
+      break
+    ops_only = [x for k, x in hsd[name] if k == "op"]
+    found = targeted_search(ops_only, k_op, budget_s=10.0)
+    if found:
+      hist, q, a, b = found
+      res.violation(f"stale-answer-after:{ops_only[k_op][0]}",
+                    f"query {q} answered {a} by the long-lived program but {b} by a freshly built replica "
+                    f"(found by the targeted search around an operation that did not drop the solver)",
+                    {"history": hist, "query": q, "long_lived": a, "replica": b})
+  res.extra["flag_mismatches"] = len(flag_mismatches)
   res.obligation("correspondence:model graph+invalidation vs cfg.Program", n_bad == 0 and len(model) == len(cases),
                  f"{n_bad} of {len(cases)} histories disagree; {first}")
   res.extra["histories"] = len(hs)
